@@ -287,7 +287,35 @@ def tie_solver(ctx, theorems_broken):
     dis, reals = stream_toy(ctx, n_toy)
     dis2, reals2 = stream_toy(ctx, ctx.n(150, 1500), wild=True, label='solve-toy-dangling')
     runs = real_runs(ctx, ctx.n(45, 600))
-    return dis + dis2, reals + reals2, runs
+    dis3 = tie_real(ctx, runs)
+    return dis + dis2 + dis3, reals + reals2, runs
+
+
+def tie_real(ctx, runs, label='solve-real'):
+    """shipped forms: real Solver vs the Lean solver model running the TRANSLATED line programs
+    (regenerated from the working tree), compared on verdict / abort class, every value (floats by
+    bits), forms, diagnostics and attempt order"""
+    import real_stream
+    info = {}
+    dis = real_stream.compare(runs, info=info)
+    dist = {}
+    for r in runs:
+        k = 'abort ' + type(r['exception']).__name__ if r['exception'] else ('solved' if r['ok'] else 'failed')
+        dist[f"{r['year']} {k}"] = dist.get(f"{r['year']} {k}", 0) + 1
+    rep = (ctx.gen_info or {}).get('translate_report') or {}
+    unsupported = []
+    for y, yr in (rep.get('years') or {}).items() if isinstance(rep, dict) else []:
+        unsupported += [(y, u) for u in (yr.get('unsupported') or [])]
+    ctx.streams[label] = {
+        'cases': len(runs), 'disagreements': len(dis), 'distribution': dist,
+        'distinct_nontrivial': sum(1 for r in runs if r['exception'] is None and len(r['solver']._v.values) > 50),
+        'translator_unsupported_constructs': len(unsupported),
+        'rule': 'demand-driven random scenarios over the shipped forms of 2021-2023 (statuses, 0-3 payer forms, itemizing, dependents, HSA, NC, gates); the recorded answers are replayed through the Lean solver model with the translated programs; non-trivial = more than 50 lines valued',
+        'samples': [{'year': r['year'], 'forms': r['forms'], 'kind': r.get('kind'), 'inputs': len(sc_inputs(r))} for r in runs[:2]]}
+    out = [{'case': i, 'protocol': ['real scenario', str(d)[:300]], 'diff': str(d)[:600]} for i, d in enumerate(dis)]
+    if unsupported:
+        out.append({'case': -1, 'protocol': ['translator'], 'diff': f'unsupported constructs in line definitions: {unsupported[:3]}'})
+    return out
 
 
 def run_C01(ctx):
@@ -811,6 +839,309 @@ def run_C18(ctx):
     run_c17_c18(ctx, 'C18')
 
 
+
+def run_C07(ctx):
+    import c07_oracle
+    broken = check_obligations(ctx, PROPS['C07']['theorems'])
+    gen = ctx.gen_info
+    obl = gen.get('c07_obligations', {}).get('obligations', [])
+    for o in obl:
+        ctx.obligations.append({'name': 'Gen.' + o['id'], 'ok': bool(o['holds'] and ctx.build_ok), 'check': o['check'], 'counts': o.get('counts')})
+    failed = gen.get('c07_failed', [])
+    ctx.gen_info = {'c07_summary': gen.get('c07_obligations', {}).get('summary'), 'failed_ids': [f.get('id') for f in failed]}
+    res = c07_oracle.run(ctx.seed, ctx.tier)
+    viol = res['violations']
+    ctx.statement['c07-figure-tax'] = {
+        'checked': sum(v for v in res['checked'].values() if isinstance(v, int)) if isinstance(res['checked'], dict) else int(res['checked']),
+        'violations': len(viol), 'detail': res['checked'],
+        'distinct_nontrivial': sum(v for v in res['checked'].values() if isinstance(v, int)) if isinstance(res['checked'], dict) else int(res['checked']),
+        'rule': 'the REAL figure_tax(x, status) of each year against an independent exact-Fraction copy of the bracket schedules: every table row (lo, midpoint, hi-0.01) x 5 statuses, all bracket edges +-0/0.005/0.01/1, 100000 +- 0.01, sampled incomes to 1e12, monotonicity on consecutive points, QSS == MFJ (thorough: every whole dollar below 100000)',
+        'samples': res.get('samples', [])[:3]}
+    seen = set()
+    for v in viol:
+        key = f"{v.get('year')}:{v.get('kind')}:{v.get('status')}"
+        if key in seen:
+            continue
+        seen.add(key)
+        ctx.report('figure_tax:' + key, f"figure_tax {v.get('kind')}: year {v.get('year')} status {v.get('status')} income {v.get('income')}: got {v.get('got')}, statutory {v.get('expected')}", {'kind': 'figure_tax', 'case': v})
+    if not viol:
+        for f in failed:
+            ctx.report('obligation:' + str(f.get('id')), f"table/worksheet obligation fails: {json.dumps(f, default=str)[:400]}", {'obligation': f}, found=False)
+        if not failed and (broken or not ctx.build_ok):
+            ctx.report('obligation:' + (broken[0] if broken else 'build'), f'proof obligation(s) no longer check: {broken[:5]}', {'broken': broken, 'log': ctx.build_log[-1500:]}, found=False)
+
+
+def oracle_c13_real(r, policy_asked):
+    """demand-exactness of the prompts of one real scenario run + re-run on the written-back file"""
+    import os
+    import tempfile
+    import solver_oracles as so
+    import scenarios as sc
+    from habutax import inputs as hinputs
+    probs = []
+    if r['exception'] is not None:
+        return probs
+    s = r['solver']
+    asked = r['asked']
+    names = [a[0] for a in asked]
+    if len(set(names)) != len(names):
+        dup = sorted({n for n in names if names.count(n) > 1})
+        probs.append(('asked-twice', f'inputs asked more than once: {dup[:4]}'))
+    reads_cache = {}
+    for x, nb, ans in asked:
+        for n in nb:
+            if n not in reads_cache:
+                reads_cache[n] = so.reads_of(s, n)
+            if n in s._v.values or True:
+                vlog, ilog, exc = reads_cache[n]
+                if x not in ilog:
+                    probs.append(('needed-by-not-reader', f'{x} was asked for on behalf of {n}, whose definition does not read it'))
+    # a resumed session: half of the inputs already in the file, the rest typed at the prompt, written back
+    probs += resumed_session_check(r)
+    # write back and re-run: silent and identical
+    fd, path = tempfile.mkstemp(suffix='.habutax', dir='/var/tmp')
+    os.close(fd)
+    try:
+        r['store'].write(path)
+        text = open(path).read()
+        pol = so.FixedPolicy({})
+        from habutax import solver as hsolver, forms as hforms
+        store2 = hinputs.InputStore(path)
+        asked2 = []
+
+        def prompt2(missing, needed_by):
+            asked2.append(missing.name())
+            return (None, False)
+        s2 = hsolver.Solver(store2, hforms.available_forms[r['year']], prompt=prompt2)
+        out = dict(year=r['year'], forms=r['forms'], solver=s2, store=store2, cfg=store2.config, asked=[], exception=None, ok=None)
+        try:
+            out['ok'] = s2.solve(list(r['forms']))
+        except BaseException as e:  # noqa: BLE001
+            if isinstance(e, (KeyboardInterrupt, SystemExit)):
+                raise
+            out['exception'] = e
+        answered = {a[0] for a in asked if a[2] is not None}
+        again = [x for x in asked2 if x in answered]
+        if again:
+            probs.append(('rerun-asks-again', f're-run on the written-back file asks again for {again[:4]}'))
+        refused_first = any(a[2] is None for a in asked)
+        if not refused_first:
+            if asked2:
+                probs.append(('rerun-not-silent', f're-run asks for {asked2[:4]} although the first run was answered everything'))
+            a, b = so.signature(r), so.signature(out)
+            if a[:6] != b[:6]:
+                probs.append(('rerun-differs', 're-run result differs: ' + so.describe_diff(a, b)))
+    finally:
+        os.unlink(path)
+    return probs
+
+
+def resumed_session_check(r):
+    import os
+    import random as _random
+    import tempfile
+    import solver_oracles as so
+    import scenarios as sc
+    from habutax import inputs as hinputs, solver as hsolver, forms as hforms
+    probs = []
+    inputs = sc.inputs_of(r)
+    rng = _random.Random('resume/' + str(r.get('scenario_seed')))
+    half = {k: v for k, v in inputs.items() if rng.random() < 0.5}
+    fd, path = tempfile.mkstemp(suffix='.habutax', dir='/var/tmp')
+    try:
+        with os.fdopen(fd, 'w') as f:
+            f.write(so.ini_text(half, rng))
+        store = hinputs.InputStore(path)
+        answered = {}
+
+        def prompt(missing, needed_by):
+            a = inputs.get(missing.name())
+            if a is None:
+                return (None, False)
+            answered[missing.name()] = a
+            return (a, True)
+        s1 = hsolver.Solver(store, hforms.available_forms[r['year']], prompt=prompt)
+        try:
+            try:
+                s1.solve(list(r['forms']))
+            finally:
+                store.write(path)          # what `habutax solve --writeback-input` does in its finally block
+        except BaseException as e:  # noqa: BLE001
+            if isinstance(e, (KeyboardInterrupt, SystemExit)):
+                raise
+        store2 = hinputs.InputStore(path)
+        asked2 = []
+
+        def prompt2(missing, needed_by):
+            asked2.append(missing.name())
+            return (None, False)
+        s2 = hsolver.Solver(store2, hforms.available_forms[r['year']], prompt=prompt2)
+        try:
+            s2.solve(list(r['forms']))
+        except BaseException as e:  # noqa: BLE001
+            if isinstance(e, (KeyboardInterrupt, SystemExit)):
+                raise
+        again = [x for x in asked2 if x in answered]
+        if again:
+            probs.append(('resumed-rerun-asks-again', f'after a resumed session with write-back the re-run asks again for {again[:4]}'))
+        lost = [k for k in half if k not in store2]
+        if lost:
+            probs.append(('resumed-lost-input', f'inputs that were in the file before the session are gone: {lost[:4]}'))
+    finally:
+        os.unlink(path)
+    return probs
+
+
+def run_C13(ctx):
+    import solver_oracles as so
+    import scenarios as sc
+    broken = check_obligations(ctx, PROPS['C13']['theorems'])
+    dis, reals, runs = tie_solver(ctx, broken)
+    bad, checked, prompts_seen = [], 0, 0
+    # generated programs: every prompt is for an input that is absent and read by the lines quoted
+    for c, real, solver, log, prompts in reals:
+        if not real[0].startswith('verdict abort'):
+            checked += 1
+            file_keys = {k for k, _ in c.inp}
+            seen = set()
+            for x, nb, ans in prompts:
+                prompts_seen += 1
+                if x in file_keys:
+                    bad.append(('toy', c.protocol(), f'{x} was asked for although the file supplies it'))
+                if x in seen:
+                    bad.append(('toy', c.protocol(), f'{x} was asked for twice'))
+                seen.add(x)
+                if not nb:
+                    bad.append(('toy', c.protocol(), f'{x} was asked for on behalf of no line'))
+    # shipped forms: mixed file / prompt runs
+    nreal = 0
+    for r in runs[:ctx.n(30, 400)]:
+        if r['exception'] is not None:
+            continue
+        nreal += 1
+        checked += 1
+        prompts_seen += len(r['asked'])
+        for key, msg in oracle_c13_real(r, None):
+            bad.append(('scenario', dict(scenario_replay(r), problem=key), msg))
+        # inputs never read are not required: drop them and re-solve (no prompt)
+        s = r['solver']
+        read = set()
+        for n in s._v.values:
+            _, ilog, _ = so.reads_of(s, n)
+            read.update(ilog)
+        inputs = sc_inputs(r)
+        needed = {k: v for k, v in inputs.items() if k in read}
+        if r['ok'] and len(needed) < len(inputs):
+            r2 = so.rerun_with(r, file_inputs=needed)
+            if so.signature(r2)[:6] != so.signature(so.rerun_with(r, file_inputs=inputs))[:6]:
+                bad.append(('scenario', dict(scenario_replay(r), problem='unread-input-matters'),
+                            'removing inputs that no evaluated line read changes the result'))
+    ctx.statement['c13-prompts'] = {
+        'checked': checked, 'prompts_examined': prompts_seen, 'violations': len(bad), 'distinct_nontrivial': nreal,
+        'rule': 'generated programs with prompt scripts and shipped-form scenarios answered by prompt: asked only if absent, once, for lines that read the input; write back with the real InputStore.write, re-read, re-solve: no answered input asked again, silent and identical when nothing was refused; dropping never-read inputs changes nothing; non-trivial = shipped-form scenario',
+        'samples': [{'year': r['year'], 'prompts': len(r['asked'])} for r in runs[:2]]}
+    for kind, rep, p in bad:
+        ctx.report('prompt:' + p[:60], p, {'kind': kind, 'case': rep})
+    finish_tie(ctx, broken, dis, found=bool(bad))
+
+
+def run_C06(ctx):
+    import tracker_stream
+    import toy
+    broken = check_obligations(ctx, PROPS['C06']['theorems'])
+    r = tracker_stream.run(ctx.seed, ctx.n(1500, 20000), common.run_driver, exhaustive_len=ctx.n(4, 6))
+    ctx.streams['tracker'] = {'cases': r['cases'], 'disagreements': len(r['disagreements']),
+                              'distribution': {k: v for k, v in r['distribution'].items() if k in ('ok', 'yield', 'stop', 'drained', 'true', 'false', 'KeyError')},
+                              'distinct_nontrivial': r['distinct_nontrivial'], 'exhaustive_up_to_length': ctx.n(4, 6),
+                              'rule': 'histories of add_unmet / meet / next() on a live generator / full drain / queries on the real DependencyTracker vs the Lean model (random length <= 40; bounded-exhaustive over a 7-op alphabet); non-trivial = has a registration and a generator step',
+                              'samples': r['samples']}
+    bad = [('tracker', p['ops'], p['problem']) for p in r['spec_problems']]
+    dis, reals, runs = tie_solver(ctx, broken)
+    dis = dis + [{'protocol': d['op'], 'diff': [d['model'][:5], d['real'][:5]]} for d in r['disagreements']]
+    # work bounds on generated programs (real solver, counters, watchdog)
+    checked = 0
+    from habutax import solver as hsolver
+    for k in range(ctx.n(300, 5000)):
+        rng = random.Random(f'{ctx.seed}/c06-toy/{k}')
+        c = toy.gen_case(rng, wild=rng.random() < 0.3)
+        regs, queued = {}, {}
+        orig_add = hsolver.DependencyTracker.add_unmet
+        orig_unatt = hsolver.Solver._add_unattempted
+        orig_attempt = hsolver.Solver._attempt_field
+        count = {'n': 0}
+
+        def add_unmet(self, dep, dependent, regs=regs):
+            regs.setdefault(dependent.name(), []).append(dep)
+            return orig_add(self, dep, dependent)
+
+        def add_unatt(self, u, queued=queued):
+            for f in (u if isinstance(u, list) else [u]):
+                queued[f.name()] = queued.get(f.name(), 0) + 1
+            return orig_unatt(self, u)
+
+        def attempt(self, field, count=count):
+            count['n'] += 1
+            if count['n'] > 20000:
+                raise RuntimeError('watchdog: more than 20000 attempts')
+            return orig_attempt(self, field)
+        hsolver.DependencyTracker.add_unmet = add_unmet
+        hsolver.Solver._add_unattempted = add_unatt
+        hsolver.Solver._attempt_field = attempt
+        try:
+            try:
+                real, solver, log, prompts = c.run_real()
+            except RuntimeError as e:
+                bad.append(('toy', c.protocol(), str(e)))
+                continue
+        finally:
+            hsolver.DependencyTracker.add_unmet = orig_add
+            hsolver.Solver._add_unattempted = orig_unatt
+            hsolver.Solver._attempt_field = orig_attempt
+        checked += 1
+        if real[0].startswith('verdict abort assertion'):
+            bad.append(('toy', c.protocol(), 'the solver failed its own exit assertion (pending work was never drained): ' + real[0]))
+            continue
+        if real[0].startswith('verdict abort'):
+            continue
+        asked = [p[0] for p in prompts]
+        if len(set(asked)) != len(asked):
+            bad.append(('toy', c.protocol(), f'an input was asked for more than once: {asked}'))
+        attempts = {}
+        for _, n in log:
+            attempts[n] = attempts.get(n, 0) + 1
+        for n, a in attempts.items():
+            distinct = len(set(regs.get(n, [])))
+            copies = max(1, queued.get(n, 1))
+            if a > copies * (2 + distinct) + 2:
+                bad.append(('toy', c.protocol(), f'{n} was evaluated {a} times; it was queued {copies} time(s) and waited on {distinct} distinct things'))
+        # every registered wait on something that got met was released: at the end no tracker holds a met name
+        if solver._field_dependencies.has_met() or solver._input_dependencies.has_met():
+            bad.append(('toy', c.protocol(), 'a met dependency was never drained'))
+        for dep, ws in solver.unmet_field_dependencies().items():
+            if dep in solver._v.values:
+                bad.append(('toy', c.protocol(), f'lines {ws} still wait on {dep}, which has a value (lost wake-up)'))
+        for dep, ws in solver.unmet_input_dependencies().items():
+            if dep in solver._i:
+                bad.append(('toy', c.protocol(), f'lines {ws} still wait on input {dep}, which has been supplied (lost wake-up)'))
+    for rr in runs:
+        if rr['exception'] is None:
+            s = rr['solver']
+            checked += 1
+            for dep, ws in s.unmet_field_dependencies().items():
+                if dep in s._v.values:
+                    bad.append(('scenario', scenario_replay(rr), f'lines {ws} still wait on {dep}, which has a value'))
+            names = [a[0] for a in rr['asked']]
+            if len(set(names)) != len(names):
+                bad.append(('scenario', scenario_replay(rr), 'an input was asked for more than once'))
+    ctx.statement['c06-work'] = {
+        'checked': checked, 'violations': len(bad), 'distinct_nontrivial': checked,
+        'rule': 'real solver on generated programs (cycles, self-reference, unknown names, refusing prompts) with a 20000-attempt watchdog, per-line attempt counters against queued x (2 + distinct waits) + 2, prompt counters, lost wake-up check at exit; real tracker histories against the multiset specification',
+        'samples': [{'tracker_history': r['samples'][0][:10]}] if r['samples'] else [{}]}
+    for kind, rep, p in bad:
+        ctx.report('work:' + p[:60], p, {'kind': kind, 'case': rep})
+    finish_tie(ctx, broken, dis, found=bool(bad))
+
+
 PROPS = {
     'C01': dict(run=run_C01, theorems=[
         'HabuVerif.C01.solved_sound', 'HabuVerif.C01.failed_complete',
@@ -828,6 +1159,20 @@ PROPS = {
         'HabuVerif.C05.schedule_independent', 'HabuVerif.C05.no_error_outcome_in_final'],
         assumptions=['prompt is absent or answers every question as a function of the input name (partial refusal is order-dependent by nature and excluded, as the property says)',
                      'agreement of the abort KIND across schedules is not proved (partial); INI layout independence is proved for written files (Ini lemmas) and tested for hand-laid-out files']),
+    'C06': dict(run=run_C06, theorems=['HabuVerif.C06.' + t for t in [
+        'history_wf', 'step_releases_one_met_pair', 'step_done_keeps_everything', 'register_adds_one_pair',
+        'drain_releases_exactly_the_met_waits', 'has_unmet_false_iff_empty', 'answered_input_is_present',
+        'present_input_stays_present', 'attempt_keeps_refused_and_inputs', 'blocked_lines_are_reported']],
+        assumptions=['PARTIAL: termination of the outer loop and the per-line attempt bound are not proved; they are explored on the real solver with counters and a watchdog (stated in the evidence as exploration)']),
+    'C07': dict(run=run_C07, theorems=['HabuVerif.C07.schedule_monotone_and_bounded', 'HabuVerif.C07.follows_rate_schedule',
+        'HabuVerif.C07.non_decreasing', 'HabuVerif.C07.qss_equals_mfj', 'HabuVerif.Gen.checked_2021', 'HabuVerif.Gen.checked_2022',
+        'HabuVerif.Gen.checked_2023', 'HabuVerif.Gen.figureTaxQ_eq_spec_2021', 'HabuVerif.Gen.figureTaxQ_eq_spec_2022',
+        'HabuVerif.Gen.figureTaxQ_eq_spec_2023', 'HabuVerif.Gen.figure_tax_mono_2023', 'HabuVerif.Gen.figure_tax_marginal_2023'],
+        assumptions=['theorems are about the exact-rational reading of the regenerated table/worksheet data; the binary64 evaluation is covered by the F64 model (bit-exact correspondence) and by the oracle on the real figure_tax',
+                     'bracket schedules in Spec/Brackets.lean entered from Rev. Proc. 2020-45/2021-45/2022-38']),
+    'C13': dict(run=run_C13, theorems=['HabuVerif.C13.' + t for t in [
+        'prompt_is_demand_exact', 'inputs_are_file_plus_answers', 'rerun_silent_and_identical', 'unread_input_irrelevant']],
+        assumptions=['the written-back file reads back to the same inputs: Ini.write_parse_roundtrip / Cli.rerun_provides (answers without surrounding blanks; padded answers re-read stripped, which every Input.value does anyway)']),
     'C11': dict(run=run_C11, theorems=['HabuVerif.C11.' + t for t in [
         'line_sees_only_valid_typed_finite', 'rejected_text_is_invalid', 'missing_iff_not_supplied',
         'no_conversion_error_escapes', 'nonfinite_is_invalid', 'valid_float_is_finite', 'nan_inf_are_literals',
